@@ -650,5 +650,4 @@ def coverage_extra(tier, merged):
     return {"explanation": "profile 'sweep' enumerates completely: every documented key x every in-range/boundary/out-of-range/"
             "wrong-type value of the committed table x the base problems that use the key's feature; profile 'args' is sampled"}
 KNOWN = {"projections-npt": known_projection_npt,
-         "hard-restart-npt-growth": known_hard_npt_growth, "subnormal-gap": known_subnormal_gap,
-         "projections-collapsed-init": known_projection_collapsed_init}
+         "hard-restart-npt-growth": known_hard_npt_growth, "subnormal-gap": known_subnormal_gap}
